@@ -105,17 +105,20 @@ macro_rules! from_host_int {
         conv_harness!($name, {
             let v: $t = kani::any();
             let r: SteelVal = SteelVal::from(v);
-            match r {
-                IntV(n) => assert!(n as i128 == v as i128, "host integer wrapped on the way in"),
-                BigNum(b) => {
-                    vassert!(b.as_ref().to_i128() == Some(v as i128), "BigNum differs from host value");
-                    core::mem::forget(b);
+            kani::cover!((v as i128) > isize::MAX as i128 || (<$t>::MAX as i128) <= isize::MAX as i128, "largest values of the type");
+            match &r {
+                IntV(n) => {
+                    vassert!(*n as i128 == v as i128, "host integer wrapped on the way in");
                 }
-                other => {
-                    core::mem::forget(other);
+                BigNum(b) => {
+                    vassert!((v as i128) > isize::MAX as i128, "non-canonical BigNum");
+                    vassert!(b.as_ref().to_i128() == Some(v as i128), "BigNum differs from host value");
+                }
+                _ => {
                     vassert!(false, "host integer became a non-integer");
                 }
             }
+            core::mem::forget(r);
         });
     };
 }
